@@ -14,7 +14,7 @@ MODEL_PLAN = {
             ("gen:en:2x2:4/0:1_1:s", 2, 1, 128, 8, True, ["M_Subdivision", "M_StatusLineSorted", "M_NoPanic", "M_ResultRegion"])],
     "C14": [("pairB", 2, 840, 3000, 200, True, ["M_Classification", "M_NoPanic"]), ("nest2", 2, 840, 12, 2, True, ["M_Classification"]),
             ("star3", 2, 840, 40, 3, True, ["M_Classification", "M_Subdivision"]),
-            ("gen:frames", 2, 1, 25, 300, True, ["M_Classification", "M_Subdivision", "M_Nesting"]), ("gen:en:2x2:3:0_0:s", 2, 1, 2048, 64, True, ["M_Classification", "M_ResultRegion"])],
+            ("gen:frames", 2, 1, 25, 300, True, ["M_Classification", "M_Subdivision", "M_Nesting"]), ("gen:en:3x2:4:0_0:s", 2, 1, 128, 8, True, ["M_Classification"]), ("gen:tshare", 2, 1, 25, 300, True, ["M_Classification", "M_Subdivision"]), ("gen:en:2x2:3:0_0:s", 2, 1, 2048, 64, True, ["M_Classification", "M_ResultRegion"])],
     "C15": [("quad", 2, 840, 200, 20, True, ["M_StatusLineSorted", "M_NoPanic"]), ("gen:lat", 2, 1, 40, 500, True, ["M_StatusLineSorted", "M_NoPanic", "M_Subdivision"])],
 }
 
@@ -92,6 +92,7 @@ def run_stage_prop(prop, tier, seed, t0):
     # Layer M first: the model's own inputs are appended to the recorded runs, so that the real
     # code's stages on exactly these inputs are judged by the Layer P stage contracts as well
     layer_m = []
+    strict_rids = set()     # Layer M inputs on which the transcription itself records NO stale prev_in_result
     rid0 = 1 + sum(1 for _ in open(trace))
     for mi, (fam, n, l, sq, st, sc, invs) in enumerate(MODEL_PLAN.get(prop, [])):
         stride = sq if tier == "quick" else st
@@ -103,6 +104,7 @@ def run_stage_prop(prop, tier, seed, t0):
             r = model_sweep.model_and_replay(prop, mwd, family=fam, n=n, l=l, stride=stride,
                                              offset=(seed * 7 + mi) % stride, use_shortcuts=sc, invs=invs, timeout=10000)
         inputs = r.pop("inputs")
+        strict = r.pop("strict", [True] * len(inputs))
         r.update({"family": fam, "stride": stride, "invariants": invs})
         if inputs:
             src = os.path.join(mwd, "inputs.ndjson")
@@ -112,8 +114,10 @@ def run_stage_prop(prop, tier, seed, t0):
             tmp = os.path.join(mwd, "stages.tmp")
             vlib.vh(["stage-inputs", "--file", src, "--rid0", rid0, "--matrix", 12, "--family", "layerM/" + fam.replace("gen:", "gen/")], tmp)
             with open(tmp) as f, open(trace, "a") as g:
-                for line in f:
+                for k, line in enumerate(f):
                     g.write(line)
+                    if k < len(strict) and strict[k]:
+                        strict_rids.add(rid0)
                     rid0 += 1
             os.remove(tmp)
             r["runs_to_contract"] = len(inputs)
@@ -135,7 +139,10 @@ def run_stage_prop(prop, tier, seed, t0):
     kcount = {}
     os.makedirs(os.path.join(vlib.OUT, "replays"), exist_ok=True)
     for (c, rid) in sorted(fails):
-        if c in KNOWN_CLASS and KNOWN_CLASS[c] in known:
+        # the recorded finding N3 (stale inherited prev_in_result) is a property of the PINNED mechanism: on the inputs of Layer M
+        # the transcription says whether that mechanism produces a stale pointer at all; where it does not, a stale pointer
+        # recorded by the code is not N3 but a new violation of the clause
+        if c in KNOWN_CLASS and KNOWN_CLASS[c] in known and not (c == "cls_stale_pir" and rid in strict_rids):
             kcount[c] = kcount.get(c, 0) + 1
             continue
         r = by[rid]
